@@ -26,10 +26,11 @@ vars == <<eng, gen, outs, noise, last>>
 NoEng == [none |-> TRUE]
 NoGen == [none |-> TRUE]
 Default == [speed |-> 1, thr |-> [s \in Streams |-> 1], gvw |-> [s \in Streams |-> 1], ht |-> 1, vol |-> 1,
-            alpha |-> 1, beta |-> 1, align |-> FALSE, fperiod |-> 1, rate |-> 1]
+            alpha |-> 1, beta |-> 1, align |-> FALSE, fperiod |-> 1, rate |-> 1,
+            iw |-> 1]     \* interpolation weights of the voice set (duration, every stream, every GV): 1 = the uniform default, 2 = others
 
 \* ---- the dependency map
-DurKey(c, u) == [labels |-> u.id,
+DurKey(c, u) == [labels |-> u.id, iw |-> c.iw,
                  mode |-> IF c.align THEN (IF u.timed THEN <<"aligned", c.fperiod, c.rate>> ELSE <<"aligned-untimed">>)
                           ELSE <<"speed", c.speed>>]
 TrajKey(c, u, s) == [dur |-> DurKey(c, u), stream |-> s, thr |-> c.thr[s],
@@ -99,7 +100,7 @@ GenFrozen == [][\A g \in Gens : (gen[g] # NoGen /\ gen'[g] # NoGen) => gen'[g].k
 \* ---- laws of the dependency map itself, for an arbitrary condition c and utterances u, u2 (checked over all
 \*      conditions in MC_Deps)
 AllConds == [speed : Vals, thr : [Streams -> Vals], gvw : [Streams -> Vals], ht : Vals, vol : Vals, alpha : Vals, beta : Vals,
-             align : BOOLEAN, fperiod : Vals, rate : Vals]
+             align : BOOLEAN, fperiod : Vals, rate : Vals, iw : Vals]
 \* C11: one stream's threshold or GV weight is not in another stream's trajectory key
 IsolationAt(c, u) == \A s, t \in Streams : \A v, w \in Vals :
                s # t => TrajKey([c EXCEPT !.thr[s] = v, !.gvw[s] = w], u, t) = TrajKey(c, u, t)
